@@ -152,6 +152,12 @@ def sensitivity(props=None, tier='quick', runs=None):
             meta = json.load(open(os.path.join(
                 os.path.dirname(path), 'meta.json')))
             targets = meta.get('detected_by') or [meta['property']]
+            if meta.get('neutralised_by'):
+                print('%s: neutralised by repair %s (no longer breaks the '
+                      'property on the current tree)' % (
+                          name, meta['neutralised_by']))
+                results.append((name, 'stale'))
+                continue
         else:
             name = os.path.basename(path)[:-6]
             targets = [name.split('-')[0]]
